@@ -305,6 +305,35 @@ def rule_needed_marks_inputs(A, R, rule):
                           and is_role((x["b"], I.sym_info.get(x["b"], (frozenset(), None))[0]), "param")]
                     blocks = set(b2 for b2 in (_lift(I, fr, x) for x in ws) if b2 is not None)
                     okp = bool(ws)
+                    # each write happens for every incoming dependency: inside the loop that enumerates the upstreams no path of an
+                    # iteration goes around it (e.g. 'only if the flag is still undecided' would keep a startup 'not needed')
+                    idx_ = dict(((nm[0], tuple(nm[1])), f) for f, nm in I.frame_names.items())
+                    for x in ws:
+                        asym = x.get("a")
+                        if not (isinstance(asym, tuple) and asym and asym[0] == "b"):
+                            continue
+                        bfid, bhead = asym[1], asym[2]
+                        ch = list(x.get("stack") or ()) + [(x["fn"], x["bb"])]
+                        pos = None
+                        for i_, (fn_, bb_) in enumerate(ch):
+                            if idx_.get((fn_, tuple(ch[:i_]))) == bfid:
+                                pos = (fn_, bb_)
+                        if pos is None:
+                            continue
+                        lb = A.facts.body(pos[0])
+                        if lb is None or len(lb.natural_loop(bhead)) <= 1:
+                            continue
+                        errs_ = error_exit_blocks(A, lb) | residual_blocks(lb)
+                        t_h = lb.term(bhead)
+                        if t_h["k"] != "call" or t_h["t"] < 0:
+                            continue
+                        sw_ = t_h["t"]
+                        loop_ = lb.natural_loop(bhead)
+                        for s0 in [s_ for s_ in lb.succs(sw_) if s_ in loop_]:
+                            if s0 == pos[1]:
+                                continue
+                            if bhead in lb.reachable(s0, {pos[1]} | errs_):
+                                okp = False
                     for c in asked:
                         cbb = _lift(I, fr, c)
                         if cbb is None or not _must_follow(A, I, fr, cb, cbb, blocks):
